@@ -592,6 +592,10 @@ nni_sock_create(nni_sock **sp, const nni_proto *proto)
 
 	if (((rv = nni_msgq_init(&s->s_uwq, 0)) != 0) ||
 	    ((rv = nni_msgq_init(&s->s_urq, 1)) != 0)) {
+		// The protocol state has not been initialized (sock_init
+		// did not run yet), so sock_destroy must not hand it to the
+		// protocol's sock_fini.
+		s->s_data = NULL;
 		sock_destroy(s);
 		return (rv);
 	}
